@@ -222,9 +222,17 @@ def guarded(node, expr_text, func):
             return _Expand(locals_).visit(copy.deepcopy(t))
         return t
 
-    for t, pol in dominating_tests(node, stop):
-        if _is_none_test(expand(t), expr_text, pol):
+    dom = [(expand(t), pol) for t, pol in dominating_tests(node, stop)]
+    for t, pol in dom:
+        if _is_none_test(t, expr_text, pol):
             return True
+    # an earlier arm `A and <E is None>` was not taken while A holds here (elif chain / match cases on the same class): E is not None
+    holds = {norm(t) for t, pol in dom if pol} | {norm(v) for t, pol in dom if pol and isinstance(t, ast.BoolOp) and isinstance(t.op, ast.And) for v in t.values}
+    for t, pol in dom:
+        if not pol and isinstance(t, ast.BoolOp) and isinstance(t.op, ast.And):
+            rest = [v for v in t.values if norm(v) not in holds]
+            if len(rest) == 1 and _is_none_test(rest[0], expr_text, False):
+                return True
     if func is not None:
         for t, pol in preceding_guards(node, func):
             if _is_none_test(expand(t), expr_text, pol):
